@@ -33,6 +33,8 @@ import (
 //	failState   (state, other error)
 //	inProgress  (state, nil) whatever the context says                 — not well-behaved
 //	ctxErrLive  (nil, error wrapping context.Canceled) whatever the context says
+//	stateCtxErrLive (state, error wrapping context.Canceled) whatever the context says — a migration whose own
+//	            derived context was cancelled (a pipeline stage failed) while the runner's context is live
 //	beforeFail  Before returns an error
 type migBeh struct {
 	Kind  string `json:"kind"`
@@ -75,6 +77,7 @@ type observed struct {
 	st          []byte
 	errKind     string // n | c | o
 	errText     string
+	ctxLive     bool // the runner's context was not cancelled when Migrate returned
 }
 
 type startRun struct {
@@ -186,9 +189,12 @@ func (m *scriptMig) Migrate(ctx context.Context, database db.KeyValueStore, _ *n
 		st = state
 	case "ctxErrLive":
 		err = fmt.Errorf("scripted: inner: %w", context.Canceled)
+	case "stateCtxErrLive":
+		st, err = state, fmt.Errorf("scripted: stage failed, pipeline context cancelled: %w", context.Canceled)
 	}
 	o := sr.obs[m.idx]
 	o.called, o.st = true, st
+	o.ctxLive = ctx.Err() == nil
 	switch {
 	case err == nil:
 		o.errKind = "n"
@@ -205,6 +211,7 @@ func (m *scriptMig) Migrate(ctx context.Context, database db.KeyValueStore, _ *n
 type startResult struct {
 	open         string // ok | newer | optout:<i>f,<j>m,… | readerr | error:…
 	result       string // ok | err   (of Run)
+	why          string // classifyRunError: which step failed and which migration the error names
 	crashed      bool
 	disk         string
 	calls        string
@@ -322,6 +329,7 @@ func realStart(d *memory.Database, sp startSpec) startResult {
 	} else {
 		out.result = "err"
 	}
+	out.why = classifyRunError(runErr)
 	store.mu.Lock()
 	out.crashed = store.dead
 	out.failedWrites = store.failed
@@ -334,6 +342,38 @@ func realStart(d *memory.Database, sp startSpec) startResult {
 	out.obs = sr.obs
 	out.orderV = sr.orderV
 	return out
+}
+
+// classifyRunError maps the error of Run to the model's `why=` field: the failing step and the migration the
+// error names ("running migration at index i: …"; `@-` = no index): ok | cancelled@ | before@ | migrate@ |
+// write@ | read@.
+func classifyRunError(err error) string {
+	if err == nil {
+		return "ok"
+	}
+	msg := err.Error()
+	at := "@-"
+	const pfx = "running migration at index "
+	if strings.HasPrefix(msg, pfx) {
+		rest := msg[len(pfx):]
+		if k := strings.Index(rest, ": "); k > 0 {
+			at, msg = "@"+rest[:k], rest[k+2:]
+		}
+	}
+	switch {
+	case strings.HasPrefix(msg, "getting intermediate state"):
+		return "read" + at
+	case strings.HasPrefix(msg, "restoring migration state"):
+		return "before" + at
+	case strings.HasPrefix(msg, "executing migration"):
+		return "migrate" + at
+	case strings.HasPrefix(msg, "writing intermediate state"), strings.HasPrefix(msg, "writing migration commit batch"),
+		strings.HasPrefix(msg, "writing schema metadata"), strings.HasPrefix(msg, "deleting intermediate state"):
+		return "write" + at
+	case msg == context.Canceled.Error():
+		return "cancelled" + at
+	}
+	return "other:" + msg
 }
 
 // classifyOpenError maps NewRunner's error to the model's verdict: `newer` (errNewerDatabase),
@@ -539,7 +579,8 @@ func (h *harness) runnerHistoryCase(hist runnerHistory, family string) bool {
 				ans = "crashed " + f[1]
 			}
 		default:
-			want = r.result + " " + r.disk + " calls=" + r.calls
+			want = r.result + " " + r.disk + " calls=" + r.calls + " why=" + r.why
+			res.Hit("runner-why:" + strings.SplitN(r.why, "@", 2)[0])
 		}
 		if ans != want {
 			res.Mismatch(lib.Mismatch{Sig: "runner-start-differs", Input: map[string]any{"history": hist, "start": si, "line": line},
@@ -601,6 +642,18 @@ func (h *harness) runnerHistoryCase(hist runnerHistory, family string) bool {
 			continue
 		}
 		_, after, _, ist := readDisk(d)
+		// store-level: the runner owns two buckets (schema metadata, intermediate state) and nothing else; the
+		// metadata record and the tokens are compared above through the accessors, here every raw key
+		for k := range dump(d) {
+			if k[0] != db.SchemaMetadata.Key()[0] && k[0] != db.SchemaIntermediateState.Key()[0] {
+				violate("runner-writes-outside-its-buckets", fmt.Sprintf("start %d: key %x (bucket %d) written by the runner", si, k, k[0]))
+				break
+			}
+			if _, was := istBefore[int(k[len(k)-1])]; k[0] == db.SchemaIntermediateState.Key()[0] && !was && (len(k) != 2 || k[1] > 63 || (uint64(1)<<k[1])&t == 0) {
+				violate("runner-stores-token-for-unknown-migration", fmt.Sprintf("start %d: token key %x does not belong to a migration of the target %b", si, k, t))
+				break
+			}
+		}
 		// token threading on the real code: Before receives exactly the stored token
 		for _, c := range strings.Split(r.calls, ",") {
 			if !strings.HasPrefix(c, "B") {
@@ -678,6 +731,32 @@ func (h *harness) runnerHistoryCase(hist runnerHistory, family string) bool {
 			if o != nil && t&bit == 0 {
 				violate("runner-runs-migration-outside-target", fmt.Sprintf("start %d: migration %d called but not in target", si, i))
 			}
+		}
+		// a migration that returned an error while the context was live stops the run: nothing is saved or applied
+		// for it, no later migration is called, Run returns the error
+		for i, o := range r.obs {
+			if o == nil || !o.called || o.errKind == "n" || !o.ctxLive || r.crashed {
+				continue
+			}
+			later := false
+			for j, o2 := range r.obs {
+				if j > i && o2 != nil {
+					later = true
+				}
+			}
+			stA, hadA := ist[i]
+			stB, hadB := istBefore[i]
+			switch {
+			case r.result == "ok" || later:
+				violate("runner-continues-after-migration-error", fmt.Sprintf(
+					"start %d: Migrate of migration %d returned an error (class %s, state %s) while the context was live; Run returned %s and "+
+						"a later migration was called: %v (calls %s)", si, i, o.errKind, showState(o.st), r.result, later, r.calls))
+			case hadA != hadB || string(stA) != string(stB):
+				violate("runner-saves-state-of-failed-migration", fmt.Sprintf(
+					"start %d: Migrate of migration %d failed (class %s) with a live context; its resume token changed from %v/%x to %v/%x",
+					si, i, o.errKind, hadB, stB, hadA, stA))
+			}
+			res.Hit("runner-migrate-error-with-live-context")
 		}
 		if sp.FailAt > 0 && r.failedWrites > 0 && r.result == "ok" && !r.crashed {
 			violate("runner-swallows-failed-write", fmt.Sprintf("start %d: the runner's write at tick %d failed and Run returned nil", si, sp.FailAt))
